@@ -232,36 +232,31 @@ def run(ctx):
     t0 = time.time()
     if ctx.quick:
         # one subscriber: every style; (min,max,mode) sampled over the three modes, incl. unlimited
-        solo = [(1, U, "all", 4, 3), (1, 2, "all", 4, 2), (2, 3, "behind", 4, 2), (1, 1, "recent", 4, 2),
-                (2, U, "recent", 3, 3)]
+        solo = [(1, U, "all", 4, 3, {}), (1, 2, "all", 4, 2, {}), (2, 3, "behind", 4, 2, {}), (1, 1, "recent", 4, 2, {}),
+                (2, U, "recent", 3, 3, {})]
         duo = [(1, 2, ["all"], '{"split"}', 1, 2, [0]), (1, U, ["all", "recent"], '{"loop", "poll"}', 0, 2, [0]),
                (2, 2, ["behind"], '{"split", "block"}', 0, 2, [])]
         cap = 2500
     else:
-        # every (min,max) in 1..5 + unlimited, all three modes; the deeper stream for a sample
+        # every (min,max) in 1..5 + unlimited, all three modes: enough publishes to fall more than max behind
         solo = []
         for mode in ("all", "behind", "recent"):
             for mn in (1, 2, 3, 4, 5):
                 for mx in (1, 2, 3, 4, 5, U):
                     if mx >= mn:
-                        solo.append((mn, mx, mode, 4, 3 if (mn + mx) % 2 else 2))
-            for (mn, mx) in ((1, U), (1, 2), (2, 3)):
-                solo.append((mn, mx, mode, 5, 3))
-        duo = []
-        k = 0
-        for (mn, mx) in ((1, 1), (1, 2), (2, 3), (1, U)):
-            for modes in (["all"], ["behind"], ["recent"], ["all", "recent"]):
-                k += 1
-                if k % 2:
-                    duo.append((mn, mx, modes, '{"split"}', 1, 2, [0]))
-                else:
-                    duo.append((mn, mx, modes, '{"coro", "loop", "poll", "block"}', 0, 2, [0]))
-        duo.append((1, 2, ["all"], '{"split"}', 0, 3, [0]))
-        duo.append((1, U, ["recent"], '{"loop", "poll"}', 0, 3, []))
+                        solo.append((mn, mx, mode, 5 if mx == U else mx + 1, 3,
+                                     dict(styles='{"split", "poll"}', join=1, at=[0])))
+            # every style of calling next(), re-subscription, all subscribe-at positions
+            for (mn, mx) in ((1, 1), (1, 2), (2, 3), (1, U), (3, U)):
+                solo.append((mn, mx, mode, 4, 3 if mx == 2 else 2, {}))
+        duo = [(1, 1, ["all"], '{"split"}', 1, 2, [0]), (1, 2, ["behind"], '{"coro", "loop", "poll", "block"}', 0, 2, [0]),
+               (1, 2, ["all", "recent"], '{"split"}', 1, 2, [0]), (2, 3, ["recent"], '{"coro", "loop", "poll", "block"}', 0, 2, [0]),
+               (1, U, ["all"], '{"coro", "loop", "poll", "block"}', 0, 2, [0]), (1, 2, ["all"], '{"split"}', 0, 3, [0])]
         cap = None
-    for (mn, mx, mode, pub, batch) in solo:
-        c = consts(1, mn, mx, [mode], pub=pub, batch=batch, join=2)
-        replay_config(ctx, rp, c, "solo_" + label(c), extra_random=50 if ctx.quick else 300)
+    for k, (mn, mx, mode, pub, batch, kw) in enumerate(solo):
+        c = consts(1, mn, mx, [mode], pub=pub, batch=batch, **dict(dict(join=2), **kw))
+        must = must_for(kw["styles"], 1, kw["at"], copy=False) if kw else MUST_TAKE
+        replay_config(ctx, rp, c, "solo%d_" % k + label(c), must=must, extra_random=50 if ctx.quick else 100)
     vlib.log("  C16 solo configurations done: %.0fs" % (time.time() - t0))
     # two subscribers: slowest-subscriber window, wake order, copy, free list
     for k, (mn, mx, modes, styles, kick, pub, at) in enumerate(duo):
